@@ -23,13 +23,14 @@ reg("C02",
          "compared with the reference table; a class = request kind x type width x position of start/end (on attribute / in gap / beyond last / 0xFFFF / "
          "invalid) x first response (error code, one entry, several entries)",
     bound="quick: %d server declarations; thorough: %d; each with all (start,end) in {0..last+2, 0xFFFF}^2, all attribute types of the database + "
-          "0x2800-0x2803, 0x2901, 0x2902, unknown 16/128 bit (16 bit types also in 128 bit form), MTU in {23,24,48,65,247}" % (
+          "0x2800-0x2803, 0x2901, 0x2902, unknown 16/128 bit (16 bit types also in 128 bit form), MTU in {23,24,48,65,247}; the max_mtu_size<512> server with 250..300 octet values "
+          "also with MTU in {255,256,257,258,259,260,512}" % (
               len(_servers.family("C02", "quick")), len(_servers.family("C02", "thorough"))),
     units=[dict(src="harness/C02_discovery.cpp", pre=["python3", "gen/servers.py", "emit"], variants=_variants("C02"))],
     quick_deadline=40, thorough_deadline=500,
     assumptions=[
         "configuration quantifier = the grammar of gen/servers.py (primary/secondary, 16/128 bit UUIDs, attribute_handle<>/attribute_handles<> gaps at "
-        "service and characteristic level, value sizes 1/2/3/4/20/30, notify/indicate, name, descriptor, include_service, GAP service), not all C++ programs",
+        "service and characteristic level, also combined with include_service, value sizes 1/2/3/4/20/30/250..300, max_mtu_size 247/512, notify/indicate, name, descriptor, include_service, GAP service), not all C++ programs",
         "declarations that do not compile are excluded: " + "; ".join("%s (%s)" % e for e in _servers.EXCLUDED),
         "demanded: returned handles inside start..end, exist, type matches, ascending, Attribute Not Found only if no (readable) match exists, and the "
         "client iteration start := last+1 (Read By Group Type: end group handle + 1) enumerates every matching attribute exactly once; the size of a "
@@ -37,7 +38,8 @@ reg("C02",
         "invalid ranges (start 0, start > end) only have to return no out-of-range attribute; Read By Group Type for anything but 16 bit <<Primary Service>> "
         "may be refused with any error (Unsupported Group Type is pinned by read_by_group_type_tests)",
         "Read By Type: a matching but unreadable attribute may be skipped or reported with an error naming its handle",
-        "Read By Group Type is not evaluated on servers with secondary services (C03 decides primary/secondary); every signature raised on a server with "
-        "include_service carries the suffix :cfg-with-include because its handle table is already inconsistent (C04)",
+        "Read By Group Type is not evaluated on servers with secondary services (C03 decides primary/secondary)",
+        "a data response has to consist of whole entries (length byte consistent with the octets that follow); how many octets of a long value are "
+        "returned is not demanded",
         "values returned by Read By Type are not compared here (C04 compares declaration values, C08 lengths)"],
     design_ref="3/C02")
